@@ -61,11 +61,11 @@ def r05_2(ck: Check) -> None:
     summ = ck.summ(CONS + "validate_block_by_itself")
     sp = Spec(summ, ("block", "now"))
     require_guard(ck, "R05.2", summ, sp, "block.header.summary.timestamp > now + %d" % MAX_FUTURE,
-                  "a timestamp more than 30 s ahead of the validator's clock is rejected")
+                  "a timestamp more than 30 s ahead of the validator's clock is rejected", exact=True)
     s2 = ck.summ(CONS + "validate_block_in_coinstate")
     sp2 = Spec(s2, ("block", "cs"))
     require_guard(ck, "R05.2", s2, sp2, "block.header.summary.timestamp <= %s.timestamp" % PARENT,
-                  "a timestamp not strictly later than the parent's is rejected", context=[HORIZON_CTX])
+                  "a timestamp not strictly later than the parent's is rejected", context=[HORIZON_CTX], exact=True)
 
 
 def r05_2_clock(ck: Check) -> None:
@@ -229,16 +229,47 @@ def r05_7(ck: Check) -> None:
           and e.term[2][1:] == (("v", s.fi.params[1]), ("v", s.fi.params[2]), ("v", s.fi.params[4]))]
     construct = "pow.select_n_k_length_slices_from_chain: n slices of length k, each from select_slice_from_chain(chained hash, height, getter, k)"
     rets = s.returns()
-    if len(calls) == 1 and ok and len(rets) == 1 and rets[0].term[0] == "call" and rets[0].term[1][0] == "a" and rets[0].term[1][2] == "join":
-        ck.ok("R05.7", construct, "", s.fi.loc)
+    from ..engine.terms import untag as _untag
+    want_ret = None
+    if len(calls) == 1 and ok:
+        want_ret = ("call", ("a", C(b""), "join"), (("comp", "list", _untag(ok[0].term), ((sp.loops[0], ()),)),), ())
+    if want_ret is not None and len(rets) == 1 and not residual(rets[0], ()) and _untag(rets[0].term) == want_ret:
+        ck.ok("R05.7", construct, "the result is the concatenation of exactly these slices, in order", s.fi.loc)
     else:
-        ck.violated("R05.7", construct, "sampling loop changed: %s" % "; ".join(e.describe() for e in calls), s.fi.loc)
-    # hash chaining between samples: sha256d(current_hash + b)
+        ck.violated("R05.7", construct, "sampling loop changed: %s; returns %s" % ("; ".join(e.describe() for e in calls), "; ".join(show(r.term)[:120] for r in rets)),
+                    s.fi.loc)
+    # hash chaining between samples: current_hash = sha256d(current_hash + b), on every iteration that is followed by another one
     ch = [e for e in s.events if e.kind == "call" and "skepticoin.hash.sha256d" in e.targets and e.term[2] and e.term[2][0][0] == "cat"]
-    if ch:
-        ck.ok("R05.7", "pow.select_n_k: next hash = sha256d(current_hash ++ slice)", "", ch[0].loc)
+    construct = "pow.select_n_k: next hash = sha256d(current_hash ++ slice), for every sample but (possibly) the last"
+    last = sp.term("i != n - 1")
+    okc = False
+    why = "hash chaining between samples not found"
+    if len(ch) == 1 and ok:
+        e = ch[0]
+        arg = e.term[2][0]
+        lv = ok[0].term[2][0]
+        conds = {c.term for c in residual(e, ())}
+        if list(loop_doms(e)) != sp.loops:
+            why = "the chaining is not part of the sampling loop"
+        elif _untag(arg) != ("cat", (lv, _untag(ok[0].term))):
+            why = "the next hash is sha256d(%s)" % show(arg)[:120]
+        elif not conds <= {last}:
+            why = "the chaining is skipped when %s" % " and ".join(show(c) for c in conds)
+        else:
+            # ... and it is assigned to the variable the next sample is drawn with
+            import ast as _ast
+            raw = ck.repo.raw_function(s.fi)
+            names = {t.id for n_ in _ast.walk(raw) if isinstance(n_, _ast.Assign) and isinstance(n_.value, _ast.Call)
+                     and (getattr(n_.value.func, "id", None) == "sha256d" or getattr(n_.value.func, "attr", None) == "sha256d")
+                     for t in n_.targets if isinstance(t, _ast.Name)}
+            if lv[0] == "lv" and lv[1] in names:
+                okc = True
+            else:
+                why = "the chained hash is not assigned to the variable the next sample is drawn with"
+    if okc:
+        ck.ok("R05.7", construct, "", ch[0].loc)
     else:
-        ck.violated("R05.7", "pow.select_n_k: next hash = sha256d(current_hash ++ slice)", "hash chaining between samples not found", s.fi.loc)
+        ck.violated("R05.7", construct, why, s.fi.loc)
 
 
 def r05_8(ck: Check) -> None:
